@@ -26,6 +26,9 @@ pub fn budget(thorough: bool, quick_s: f64, share: f64) -> f64 {
 }
 
 pub fn machinery(msg: &str) -> ! {
+    // a task of the crate under test that panicked (tokio swallows the panic of a spawned task)
+    // usually shows up as a closed channel or a missing answer: that is a verdict, not a crash
+    check_subject_panic();
     eprintln!("MACHINERY: {msg}");
     println!("MACHINERY-ERROR {msg}");
     std::process::exit(EXIT_MACHINERY);
@@ -53,20 +56,40 @@ pub fn install_panic_hook() {
     }));
 }
 
+fn is_subject_location(loc: &str) -> bool {
+    // the crate under test is a path dependency (absolute location); the harness' own files are
+    // relative ("src/…"); a panic inside a registry crate was reached through either and is
+    // attributed to the subject (the harness only feeds those crates fixed, valid inputs)
+    loc.starts_with("/repo/") || loc.contains("/.cargo/registry/")
+}
+
+/// If a panic located in the crate under test was recorded on this thread since the current
+/// execution began (e.g. inside a spawned task, where tokio catches it), continue unwinding to the
+/// enclosing `catch_subject_panic` without disturbing the recorded location.
+pub fn check_subject_panic() {
+    let pending = LAST_PANIC.with(|p| p.borrow().as_ref().map(|(l, _)| is_subject_location(l)).unwrap_or(false));
+    if pending && IN_CATCH.with(|c| c.get()) {
+        std::panic::resume_unwind(Box::new("panic inside a task of the crate under test"));
+    }
+}
+
+thread_local! {
+    static IN_CATCH: std::cell::Cell<bool> = const { std::cell::Cell::new(false) };
+}
+
 /// Runs `f`; a panic whose location lies in the crate under test becomes `Err((location, message))`,
 /// any other panic is a machinery error.
 pub fn catch_subject_panic<R>(f: impl FnOnce() -> R) -> Result<R, (String, String)> {
-    QUIET_PANICS.with(|q| q.set(true));
+    let (was_quiet, was_in) = (QUIET_PANICS.with(|q| q.replace(true)), IN_CATCH.with(|c| c.replace(true)));
+    LAST_PANIC.with(|p| *p.borrow_mut() = None);
     let r = std::panic::catch_unwind(std::panic::AssertUnwindSafe(f));
-    QUIET_PANICS.with(|q| q.set(false));
+    QUIET_PANICS.with(|q| q.set(was_quiet));
+    IN_CATCH.with(|c| c.set(was_in));
     match r {
         Ok(v) => Ok(v),
         Err(_) => {
             let (loc, msg) = LAST_PANIC.with(|p| p.borrow_mut().take()).unwrap_or_default();
-            // the crate under test is a path dependency (absolute location); the harness' own files
-            // are relative ("src/…"); a panic inside a registry crate was reached through either and
-            // is attributed to the subject (the harness only feeds those crates fixed, valid inputs)
-            if loc.starts_with("/repo/") || loc.contains("/.cargo/registry/") {
+            if is_subject_location(&loc) {
                 Err((loc, msg))
             } else {
                 machinery(&format!("harness panic at {loc}: {msg}"))
